@@ -343,20 +343,44 @@ def name_clashes(ctx, work):
 
 
 def undeclared_filter(ctx, work, k):
+    """a filter that no header line declares, on the first record of the file, the first record of a later contig, the last
+    record, or anywhere: the conversion must fail (htslib adds a dummy header line while it parses such a record, so the
+    position of the record relative to what was read before the header was recorded matters)"""
     from bio2zarr import vcf2zarr
-    spec = vcfgen.simple_file(ctx.rng, nrec=5, ncontig=1, samples=0, unused_contigs=False)
-    spec["records"][ctx.rng.randrange(5)]["filter"] = ["NOTDECLARED"]
-    p = vcfgen.materialise(spec, pathlib.Path(work) / f"uf{k}", "vcf.gz+tbi")
-    out = pathlib.Path(work) / f"uf{k}.zarr"
-    ctx.case(("undeclared filter", k), True)
-    ctx.count("undeclared_filter")
-    try:
-        vcf2zarr.convert([p], out, worker_processes=0)
-        ctx.violate("a record uses an undeclared filter but the conversion succeeded", {"vcf_spec": spec}, "error", "accepted")
-    except Exception:  # noqa: BLE001
-        pass
-    if (out / ".zmetadata").exists():
-        ctx.violate("undeclared filter: a finished store was left behind", {"vcf_spec": spec}, "no output", "store")
+    rng = ctx.rng
+    for where in ("first of file", "first of a later contig", "last", "random", "with a declared one"):
+        while True:
+            spec = vcfgen.simple_file(rng, nrec=rng.choice([6, 12]), ncontig=2, samples=0, unused_contigs=False)
+            contigs = sorted({r["contig"] for r in spec["records"]})
+            if len(contigs) == 2:
+                break
+        spec["filters"] = spec["filters"] + [["s50", "declared"]]
+        recs = spec["records"]
+        i = {"first of file": 0, "first of a later contig": next(j for j, r in enumerate(recs) if r["contig"] == contigs[1]),
+             "last": len(recs) - 1}.get(where, rng.randrange(len(recs)))
+        recs[i]["filter"] = ["s50", "NOTDECLARED"] if where == "with a declared one" else ["NOTDECLARED"]
+        tag = f"uf{k}{where[:3].replace(' ', '')}{i}"
+        for kind, parts in (("vcf.gz+tbi", None), ("vcf.gz+csi", 3)):
+            p = vcfgen.materialise(spec, pathlib.Path(work) / tag, kind, block_size=200)
+            out = pathlib.Path(work) / f"{tag}.zarr"
+            icf = pathlib.Path(work) / f"{tag}.icf"
+            shutil.rmtree(out, ignore_errors=True)
+            inp = {"vcf_spec": spec, "undeclared_filter_on_record": i, "where": where, "kind": kind}
+            ctx.case(("undeclared filter", k, where, kind), True)
+            ctx.count("undeclared_filter")
+            try:
+                if parts is None:
+                    vcf2zarr.convert([p], out, worker_processes=0)
+                else:
+                    convlib.explode(icf, [p], partitions=parts)
+                    vcf2zarr.encode(icf, out, worker_processes=0)
+                ctx.violate(f"a record ({where}) uses an undeclared filter but the conversion succeeded", inp, "error", "accepted")
+            except Exception:  # noqa: BLE001
+                pass
+            if (out / ".zmetadata").exists():
+                ctx.violate("undeclared filter: a finished store was left behind", inp, "no output", "store")
+            shutil.rmtree(out, ignore_errors=True)
+            shutil.rmtree(icf, ignore_errors=True)
 
 
 def run(ctx):
